@@ -299,4 +299,20 @@ Definition step (st : store) (p : op) : store * res :=
 Definition run_ops (ops : list op) (st : store) : store :=
   fold_left (fun st p => fst (step st p)) ops st.
 
+(* final store and the result of every operation *)
+Fixpoint run_trace (ops : list op) (st : store) : store * list res :=
+  match ops with
+  | [] => (st, [])
+  | p :: r => let '(st', x) := step st p in
+              let '(st'', xs) := run_trace r st' in (st'', x :: xs)
+  end.
+
+(* the object an operation may modify (None: it only creates a new object) *)
+Definition target (p : op) : option nat :=
+  match p with
+  | OSet o _ _ | ODel o _ | OAdd o _ _ _ | OExtend o _ | OUpdate o _ | OSetDefault o _ _
+  | OPop o _ _ | OPopItem o | ODiscard o _ | OClear o | OIor o _ | OPrepare o => Some o
+  | OCopy _ | ONew _ | OOr _ _ | ORor _ _ => None
+  end.
+
 End HD.
